@@ -910,10 +910,15 @@ func compareByNeighborAddress(path1, path2 *Path) *Path {
 	// per RFC 4271 9.1.2.2. g
 
 	p1 := path1.GetSource().Address
+	p2 := path2.GetSource().Address
+	if !p1.IsValid() && !p2.IsValid() {
+		// neither has one: nothing to tell them apart by (preferring the
+		// one asked about first would let the order of arrival decide)
+		return nil
+	}
 	if !p1.IsValid() {
 		return path1
 	}
-	p2 := path2.GetSource().Address
 	if !p2.IsValid() {
 		return path2
 	}
